@@ -216,4 +216,27 @@ theorem C01_pair_composition_h2_h2 (segs : List Bytes) (pieces : List Bytes) (si
    by rw [C01_data_concat_complete sid sched ⟨queueOf pieces, false⟩ m w rfl hm hw hend, eventsB_queueOf]⟩
 
 
+/-! ## (e) frames are written whole -/
+
+/-- For every interleaving of queued WINDOW_UPDATEs, prepared stream frames and
+    writable events in which the socket takes any number of bytes (short writes
+    in the middle of a frame included): the bytes on the socket, followed by the
+    parked rest of the frame being written, are exactly the concatenation of the
+    frames started so far — no frame (in particular no control frame) ever
+    starts inside another one. This is what the `expect_write.is_none()` guard
+    of the WINDOW_UPDATE stage buys. -/
+theorem C01_frames_not_interleaved (ops : List WOp) :
+    (wrun true Wr.init ops).out ++ (wrun true Wr.init ops).cur = (wrun true Wr.init ops).hist.flatten :=
+  wrun_inv ops Wr.init (by simp [WrInv, Wr.init])
+
+/-- without that guard the statement is false: two bytes of a DATA frame, then
+    a queued control frame in the middle of it -/
+theorem C01_frames_not_interleaved_needs_guard :
+    let ops := [WOp.queueData [(1, 0), (1, 1), (1, 2), (1, 3)], .writable 2, .queueCtrl [(9, 0), (9, 1)], .writable 10]
+    (wrun false Wr.init ops).out = [(1, 0), (1, 1), (9, 0), (9, 1), (1, 2), (1, 3)] ∧
+    (wrun true Wr.init ops).out = [(1, 0), (1, 1), (1, 2), (1, 3)] ∧
+    (wrun true Wr.init (ops ++ [.writable 10])).out = [(1, 0), (1, 1), (1, 2), (1, 3), (9, 0), (9, 1)] := by
+  decide
+
+
 end Sozu.H1Body
